@@ -138,10 +138,23 @@ class DictWriter:
                 "binding": self.write_binding(variable.binding),
                 "amount": variable.amount,
                 "alignment": variable.alignment,
+                "value": self.write_initial_value(variable.value),
             }
         else:  # pragma: no cover
             raise NotImplementedError(str(variable))
         return json_variable
+
+    def write_initial_value(self, value):
+        if value is None:
+            return None
+        json_parts = []
+        for part in value:
+            if isinstance(part, bytes):
+                json_parts.append({"kind": "bytes", "data": bin2asc(part)})
+            else:
+                assert part[0] is ir.ptr
+                json_parts.append({"kind": "address", "name": part[1]})
+        return json_parts
 
     def write_subroutine(self, subroutine):
         json_binding = self.write_binding(subroutine.binding)
@@ -430,9 +443,24 @@ class DictReader:
         binding = self.construct_binding(json_variable["binding"])
         amount = json_variable["amount"]
         alignment = json_variable["alignment"]
-        variable = ir.Variable(name, binding, amount, alignment)
+        value = self.construct_initial_value(json_variable.get("value"))
+        variable = ir.Variable(name, binding, amount, alignment, value=value)
         self.register_value(variable)
         return variable
+
+    def construct_initial_value(self, json_value):
+        if json_value is None:
+            return None
+        value = []
+        for json_part in json_value:
+            pkind = json_part["kind"]
+            if pkind == "bytes":
+                value.append(asc2bin(json_part["data"]))
+            elif pkind == "address":
+                value.append((ir.ptr, json_part["name"]))
+            else:  # pragma: no cover
+                raise NotImplementedError(pkind)
+        return tuple(value)
 
     def construct_subroutine(self, json_subroutine):
         name = json_subroutine["name"]
